@@ -1,7 +1,7 @@
 (* C13 — property theorems (statements only; the proofs live in the Acme.C13.Proofs... files). *)
 From Coq Require Import ZArith List Bool.
 From Acme.C12 Require Import Proto NetModel Load.
-From Acme.C12 Require Import Received.
+From Acme.C12 Require Import Received LayoutC01.
 From Acme.C13 Require Import ProofsWf Proofs ProofsAlloc.
 Import ListNotations.
 Open Scope Z_scope.
@@ -43,3 +43,10 @@ Theorem d22_load_refuted :
   exists n, load (0, 0) d22_input = Ok n /\ wfb n = true /\ ~ recv_link_ok n (received_rel d22_input).
 Proof. exact d22_load_refuted_lemma. Qed.
 Print Assumptions d22_load_refuted.
+
+(* "a network satisfying the model invariants": the layouts of every loaded network (message payloads, multiplexer
+   groups at any depth) satisfy Acme.C01.Layout.wfb, the layout predicate of C01 itself. *)
+Theorem load_ok_layouts_c01 : forall (now : time) (p : PNet) (n : net),
+  pnet_u32_ok p -> load now p = Ok n -> net_c01_okb n = true.
+Proof. exact load_ok_layouts_c01_lemma. Qed.
+Print Assumptions load_ok_layouts_c01.
